@@ -269,7 +269,7 @@ Definition p_string (s : st) (rawval : str) : option st :=       (* None = Index
 Definition p_ident (s : st) (val : str) : st :=
   if is_ctx s CAttrib && has W_attribute s then ret (append s val I_attribute_selector) ret__ident_0
   else if is_ctx s CAttrib && has W_value s then ret (append s val I_attribute_value) ret__ident_1
-  else if is_ctx s CNegation then ret (append s val I_negation_type_selector) ret__ident_2
+  else if is_ctx s CNegation && (has W_type_selector s || is_element_name (ex s)) then ret (append s val I_negation_type_selector) ret__ident_2
   else if in_pseudo s then ret (append s val I_IDENT) ret__ident_3
   else if has W_type_selector s || is_element_name (ex s) then ret (append s val I_type_selector) ret__ident_4
   else ret (bad s) ret__ident_5.
